@@ -64,4 +64,108 @@ theorem scanStringTok_wfI (inStr : Bool) (o : Option UInt8) (r : Bytes) :
       · next hi hk => exact strTok_wfI inStr r k (by omega) (Or.inl hs) (fun _ => hk)
       · exact classify_strEnd _ _
 
+/-! ### outside strings -/
+
+def ScOK (sc : Scan) : Prop := (classify false sc.ty sc.lval).wfI = true
+
+theorem ite_ScOK {c : Prop} [Decidable c] {a b : Scan} (ha : c → ScOK a) (hb : ¬c → ScOK b) :
+    ScOK (if c then a else b) := by
+  split
+  · exact ha ‹_›
+  · exact hb ‹_›
+
+theorem sc_word (ch : UInt8) (r : Bytes) (h : isIdent ch false = true) :
+    ScOK { n := (scanIdentOrModule r).fst, token := some (ch :: List.take (scanIdentOrModule r).fst r),
+           ty := if (scanIdentOrModule r).snd = true then tokModuleIdent
+           else (bytesLookup (ch :: List.take (scanIdentOrModule r).fst r) keywords).getD tokIdent,
+           lval := { token := ch :: List.take (scanIdentOrModule r).fst r } } := by
+  unfold ScOK
+  rcases scanIdentOrModule_cases r with e | ⟨c, r2, hd, hc, e⟩
+  · simp only [e, Bool.false_eq_true, if_false]
+    exact word_wfI _ (identName_word ch r h)
+  · simp only [e, if_true, classify_modIdent, take_module r r2 c hd]
+    have := modIdent_word (ch :: r.take (identLen r)) (c :: r2.take (identLen r2)) (identName_word ch r h)
+      (identName_word c r2 hc)
+    simpa [Tok.wfI, Tok.wf] using this
+
+theorem sc_var (r : Bytes) (h : isIdent (peek r) false = true) :
+    ScOK { n := (scanIdentOrModule r).fst, token := some (36 :: List.take (scanIdentOrModule r).fst r),
+           ty := if (scanIdentOrModule r).snd = true then tokModuleVariable else tokVariable,
+           lval := { token := 36 :: List.take (scanIdentOrModule r).fst r } } := by
+  unfold ScOK
+  rcases scanIdentOrModule_cases r with e | ⟨c, r2, hd, hc, e⟩
+  · simp only [e, Bool.false_eq_true, if_false, classify_var]
+    simpa [Tok.wfI, Tok.wf, isVarName] using identName_take r h
+  · simp only [e, if_true, classify_modVar, take_module r r2 c hd]
+    have := modIdent_word (r.take (identLen r)) (c :: r2.take (identLen r2)) (identName_take r h)
+      (identName_word c r2 hc)
+    simpa [Tok.wfI, Tok.wf, isModVar] using this
+
+theorem sc_number (st : NumState) (b : UInt8) (r : Bytes) (hok : (scanNumber st r).snd = true)
+    (h : (st = .lead ∧ isNumber b = true) ∨ (st = .float ∧ b = 46 ∧ isNumber (peek r) = true)) :
+    ScOK { n := (scanNumber st r).fst, token := some (b :: List.take (scanNumber st r).fst r), ty := tokNumber,
+           lval := { token := b :: List.take (scanNumber st r).fst r } } := by
+  unfold ScOK
+  have e : scanNumber st r = ((scanNumber st r).fst, true) := by rw [← hok]
+  simp only [classify_number, Tok.wfI, Tok.wf]
+  rcases h with ⟨rfl, hb⟩ | ⟨rfl, rfl, hp⟩
+  · exact okNumber_lead b r _ hb e
+  · exact okNumber_float r _ hp e
+
+theorem sc_index (r : Bytes) (h : isIdent (peek r) false = true) :
+    ScOK { n := identLen r, token := some (46 :: List.take (identLen r) r), ty := tokIndex,
+           lval := { token := List.take (identLen r) r } } := by
+  unfold ScOK
+  simpa [classify_index, Tok.wfI, Tok.wf] using identName_take r h
+
+theorem sc_format (r : Bytes) (h : isIdent (peek r) true = true) :
+    ScOK { n := identLen r, token := some (64 :: List.take (identLen r) r), ty := tokFormat,
+           lval := { token := 64 :: List.take (identLen r) r } } := by
+  unfold ScOK
+  simp only [classify_format, Tok.wfI, Tok.wf, okFormat, Bool.and_eq_true, Bool.not_eq_true', List.all_eq_true]
+  refine ⟨?_, take_identLen r⟩
+  cases r with
+  | nil => exact absurd h (by decide)
+  | cons c r' => simp only [peek_cons] at h; simp [identLen, h]
+
+/-- EVERY TOKEN SCANNED OUTSIDE A STRING IS WELL-FORMED -/
+theorem scanTok_wfI (ch : UInt8) (r : Bytes) : ScOK (scanTok false ch r) := by
+  unfold scanTok
+  simp only []
+  repeat' (apply ite_ScOK <;> intro _)
+  all_goals (try (exact classify_byte false ch.toNat ch.toNat_lt _))
+  all_goals (try (exact scanStringTok_wfI false _ r))
+  all_goals (try (exact classify_invalid false _))
+  all_goals (try (unfold ScOK; decide))
+  · exact sc_word ch r ‹_›
+  · exact sc_number .lead ch r ‹_› (Or.inl ⟨rfl, ‹_›⟩)
+  · have : ch = 46 := by simpa using ‹(ch == 46) = true›
+    subst this; exact sc_index r ‹_›
+  · have : ch = 46 := by simpa using ‹(ch == 46) = true›
+    subst this; exact sc_number .float 46 r ‹_› (Or.inr ⟨rfl, rfl, ‹_›⟩)
+  · have : ch = 36 := by simpa using ‹(ch == 36) = true›
+    subst this; exact sc_var r ‹_›
+  · have : ch = 64 := by simpa using ‹(ch == 64) = true›
+    subst this; exact sc_format r ‹_›
+
+/-- EVERY TOKEN `Lex` RETURNS IS WELL-FORMED (single bytes and error tokens carry no content) -/
+theorem lx_wfI (r : Bytes) (inStr : Bool) : (classify inStr (lx r inStr).1 (lx r inStr).2.1).wfI = true := by
+  unfold lx lex
+  simp only []
+  split
+  · cases inStr <;> rfl
+  · split
+    · next hi =>
+      simp only [commit]
+      have : inStr = true := hi
+      subst this
+      exact scanStringTok_wfI true none r
+    · next hi =>
+      have : inStr = false := by simpa using hi
+      subst this
+      split
+      · rfl
+      · rfl
+      · simp only [commit]; exact scanTok_wfI _ _
+
 end Gojq.RefTerm
